@@ -360,7 +360,7 @@ func c17FarPointer() ([]byte, string) {
 
 func c17Run(c *core.Ctx, args []string) {
 	c.Res.Level = "exploration"
-	c.Res.Rule = "(a) DNS responses built by the independent builder golang.org/x/net/dns/dnsmessage, with and without compression: every question name of the label-count x label-length grid {1,2,3,64,127}x{1,2,62,63} (up to 255 octets); every record sequence of length <=2 (thorough <=3) over {A, AAAA, CNAME, PTR, MX, TXT} x every section placement; the stored entry (question name, A/AAAA/CNAME/PTR records) must equal the values fed to the builder; pointer chains of depth 1..4; 16 malformed shapes (pointer loops, pointers past the end, labels 64..191, truncated/overrunning records) and every truncation of one instance per shape must be rejected with an error; mDNS A/AAAA host names in every section; NBNS node status names. (b) merge algebra, complete: all 162x162 NameEntry pairs, and every update sequence of length <=3 over 3 names through each of the five Host.Update*Name on a real host, and every update sequence of length 3 over two addresses of one MAC (the MAC level entry never loses an attribute). distinct non-trivial = distinct messages / entry pairs"
+	c.Res.Rule = "(a) DNS responses built by the independent builder golang.org/x/net/dns/dnsmessage, with and without compression: every question name of the label-count x label-length grid {1,2,3,64,127}x{1,2,62,63} (up to 255 octets); every record sequence of length <=2 (thorough <=3) over {A, AAAA, CNAME, PTR, MX, TXT} x every section placement; the stored entry (question name, A/AAAA/CNAME/PTR records) must equal the values fed to the builder; pointer chains of depth 1..4; 16 malformed shapes (pointer loops, pointers past the end, labels 64..191, truncated/overrunning records) and every truncation of one instance per shape must be rejected with an error; mDNS A/AAAA host names in every section; NBNS node status names and every truncation of their name arrays. (b) merge algebra, complete: all 162x162 NameEntry pairs, and every update sequence of length <=3 over 3 names through each of the five Host.Update*Name on a real host, and every update sequence of length 3 over two addresses of one MAC (the MAC level entry never loses an attribute). distinct non-trivial = distinct messages / entry pairs"
 	c.Res.Assumptions = []string{"ground truth = the values handed to the independent builder (golang.org/x/net/dns/dnsmessage) or to the raw reference builder", "ProcessDNS records the answer section only (as the code documents); authority/additional records are expected to be ignored by it"}
 	e := &c17Env{}
 	unit := 0
@@ -521,7 +521,7 @@ func c17Rest(c *core.Ctx, e *c17Env, next func() bool) {
 }
 
 func c17MDNS(c *core.Ctx, e *c17Env) {
-	for _, host := range []string{"tv", "living-room-tv", labelName(1, 63)} {
+	for _, host := range []string{"tv", "living-room-tv", labelName(1, 63), "nicola", "office-pc", "a", "local", "loc.al"} {
 		for sec := 0; sec < 3; sec++ {
 			for _, compress := range []bool{false, true} {
 				rrs := []c17RR{{"txt", "x._airplay._tcp.local", "model=AppleTV"}, {"a", host + ".local", "192.168.0.10"}, {"aaaa", host + ".local", "fe80::10"}}
@@ -626,6 +626,42 @@ func c17NBNS(c *core.Ctx, e *c17Env) {
 		}
 		if failure != "" {
 			c.Violate("nbns-decode|"+firstWords(failure, 2), fmt.Sprintf("NBNS node status case %d: %s", ci, failure), c17Replay{Kind: "nbns", Hex: hex.EncodeToString(b), Want: want})
+		}
+		// every truncation of the name array (record length kept consistent): rejected, empty, or the name of an entry
+		// that is completely present - never a panic, never a name read from beyond the data
+		for cut := 1; cut < 1+18*len(names); cut++ {
+			tb := refnet.DNSHeader(9, 0x8400, 0, 1, 0, 0)
+			tb = append(tb, refnet.DNSRR(nbname, 0x21, 1, 0, data[:cut])...)
+			c.Count("evaluations", 1)
+			got, failure := func() (got string, failure string) {
+				defer func() {
+					if r := recover(); r != nil {
+						failure = fmt.Sprintf("panic: %v @%s", r, panicSite())
+					}
+				}()
+				vfuel.Set(200_000)
+				h := dns.VerifNew(e.session())
+				raw := dnsFrame(tb, 137, 137, env.MAC1, ip4a, ip4host)
+				frame, err := e.session().Parse(append([]byte(nil), raw...))
+				if err != nil {
+					return "", "Parse: " + err.Error()
+				}
+				n, err := h.ProcessNBNS(frame.Host, frame.Ether(), frame.Payload())
+				if err != nil {
+					return "", ""
+				}
+				return n.Name, ""
+			}()
+			okName := got == ""
+			for i, n := range names {
+				if !n.group && got == n.name && 1+18*(i+1) <= cut {
+					okName = true
+				}
+			}
+			if failure != "" || !okName {
+				c.Violate("nbns-truncated|"+firstWords(failure+" "+got, 1), fmt.Sprintf("NBNS node status case %d with the name array cut after %d of %d bytes: %s name=%q", ci, cut, 1+18*len(names), failure, got), c17Replay{Kind: "nbns", Hex: hex.EncodeToString(tb), Want: want})
+				break
+			}
 		}
 	}
 }
